@@ -8,11 +8,16 @@ macro_rules! dispatch_n {
 }
 
 #[allow(unused_imports)] use crate::dispatch_n;
+pub mod c02;
 pub mod c03;
+pub mod c04;
 
 pub fn lookup(id: &str) -> Option<Prop> {
     Some(match id {
+        "C02" => Prop { header: c02::HEADER, generate: c02::generate, exec: c02::exec },
+        "C17" => Prop { header: c02::HEADER17, generate: c02::generate, exec: c02::exec },
         "C03" => Prop { header: c03::HEADER, generate: c03::generate, exec: c03::exec },
+        "C04" => Prop { header: c04::HEADER, generate: c04::generate, exec: c04::exec },
         _ => return None,
     })
 }
